@@ -1280,7 +1280,14 @@ class SSHClientProcess(SSHProcess[AnyStr], SSHClientStreamSession[AnyStr]):
             self._recv_buf[datatype] = []
 
         buf = cast(AnyStr, '' if self._encoding else b'')
-        return buf.join(cast(Iterable[AnyStr], recv_buf))
+        result = buf.join(cast(Iterable[AnyStr], recv_buf))
+
+        # Account for what was taken out of the receive buffer, so reading
+        # from the channel can go on if it was paused with the buffer full
+        self._recv_buf_len -= len(result)
+        self._maybe_resume_reading()
+
+        return result
 
     def session_started(self) -> None:
         """Start a process for this newly opened client channel"""
